@@ -1825,9 +1825,12 @@ impl<K: AsRef<Key>> ServerError<K> {
         let mut builder = builder.additional();
         match self.0 {
             ServerErrorInner::Unsigned { error } => {
-                let tsig = {
-                    MessageTsig::from_message(msg)
-                        .expect("missing or malformed TSIG record")
+                let Ok(tsig) = MessageTsig::from_message(msg) else {
+                    // The request’s TSIG record is misplaced or cannot be
+                    // interpreted: there is nothing to copy it from. RFC
+                    // 8945, section 5.2, wants a plain FORMERR.
+                    builder.header_mut().set_rcode(Rcode::FORMERR);
+                    return Ok(builder);
                 };
                 builder.push((
                     tsig.record.owner(),
